@@ -193,6 +193,9 @@ func decodeFile(x *sx) (*File, error) {
 		if f.Vals[i].Form == "lit" && f.Vals[i].Tok == "FLOAT" {
 			f.Vals[i].Val = reduceFrac(f.Vals[i].Val)
 		}
+		if f.Vals[i].Form == "lit" && f.Vals[i].Tok == "COMPLEX" {
+			f.Vals[i].Val = reduceParts(f.Vals[i].Val)
+		}
 	}
 	return f, nil
 }
@@ -263,4 +266,15 @@ func qa(s string) string {
 	}
 	b.WriteByte('"')
 	return b.String()
+}
+
+// reduceParts canonicalises "TOK:v;TOK:v" (FLOAT parts travel as unreduced fractions).
+func reduceParts(s string) string {
+	parts := strings.Split(s, ";")
+	for i, p := range parts {
+		if strings.HasPrefix(p, "FLOAT:") {
+			parts[i] = "FLOAT:" + reduceFrac(strings.TrimPrefix(p, "FLOAT:"))
+		}
+	}
+	return strings.Join(parts, ";")
 }
